@@ -33,11 +33,25 @@ type c09Case struct {
 	// RealRootPath: the scan root carries a path (ScanRoot.Path), as the roots of a directory
 	// scan do, while the file system stays the fault-injecting one.
 	RealRootPath bool `json:"real_root_path,omitempty"`
+	// SecondRoot adds a fault-free second scan root with a few files of its own, scanned before
+	// (1) or after (2) the faulted one: what an extractor finds there counts as "other results"
+	// when one of its files in the faulted root cannot be read.
+	SecondRoot int `json:"second_root,omitempty"`
 	// Only, when non-empty, restricts the run to these fault sets (replay of one finding).
 	Only []c09Run `json:"only,omitempty"`
 }
 
 type walkmodel_Tree = memfs.Tree
+
+// c09SecondTree is the content of the fault-free second scan root (names no generated tree uses).
+var c09SecondTree = memfs.Tree{Nodes: []memfs.Node{
+	{Path: "zz2", Kind: memfs.KDir},
+	{Path: "zz2/one.txt", Kind: memfs.KFile, Content: "1"},
+	{Path: "zz2/two.lock", Kind: memfs.KFile, Content: "22"},
+	{Path: "zz2/three.json", Kind: memfs.KFile, Content: "333"},
+	{Path: "zz2/sub", Kind: memfs.KDir},
+	{Path: "zz2/sub/four.txt", Kind: memfs.KFile, Content: "4444"},
+}}.Normalize()
 
 type c09Run struct {
 	Faults      []memfs.Fault `json:"faults"`
@@ -83,6 +97,9 @@ func genC09(t *rapid.T) c09Case {
 		c.Cfg.IgnoreSubDirs = rapid.IntRange(0, 3).Draw(t, "ignore_subdirs") == 0
 	} else {
 		c.RealRootPath = rapid.IntRange(0, 2).Draw(t, "real_root_path") == 0
+		if rapid.IntRange(0, 3).Draw(t, "second_root") == 0 {
+			c.SecondRoot = rapid.IntRange(1, 2).Draw(t, "second_root_position")
+		}
 	}
 	return c
 }
@@ -142,6 +159,17 @@ func (c c09Case) run(r c09Run) scanOut {
 	roots := virtualRoot(mfs)
 	if c.RealRootPath {
 		roots[0].Path = "/verif-c09-root"
+	}
+	if c.SecondRoot != 0 {
+		other := virtualRoot(memfs.New(c09SecondTree, memfs.Options{ReadDirFile: r.ReadDirFile}))
+		if c.RealRootPath {
+			other[0].Path = "/verif-c09-other"
+		}
+		if c.SecondRoot == 1 {
+			roots = append(other, roots...)
+		} else {
+			roots = append(roots, other...)
+		}
 	}
 	go func() { done <- runScan(roots, cfg, c.Exts, nil) }()
 	if out, ok := ev.Await(done, 20*time.Second, ev.HangLimit); ok {
@@ -512,6 +540,9 @@ func propC09(c c09Case) (ev.Outcome, error) {
 	}
 	if c.RealRootPath {
 		o.Classes = append(o.Classes, "scenario_root_with_path")
+	}
+	if c.SecondRoot != 0 {
+		o.Classes = append(o.Classes, fmt.Sprintf("scenario_with_fault_free_second_root_%d", c.SecondRoot))
 	}
 	return o, nil
 }
